@@ -295,6 +295,13 @@ impl<'a> Work<'a> {
                     }
                 }
                 6 => prog.push(0x00),
+                7 if rng.chance(1, 2) => {
+                    // ED followed by a prefix byte is an undefined ED opcode, i.e. a two-byte NOP: whatever
+                    // comes next is executed as if nothing had stood in front of it
+                    prog.extend_from_slice(&[0xED, *rng.pick(&[0xDDu8, 0xFD, 0xED, 0xCB])]);
+                    let follow: [&[u8]; 9] = [&[0x21, 0x34, 0x12], &[0xE5], &[0xB0], &[0x7E], &[0x09], &[0x34], &[0xE9], &[0x36, 0x55], &[0x46]];
+                    prog.extend_from_slice(follow[rng.below(9) as usize]);
+                }
                 _ => {
                     let page = rng.below(7) as u8;
                     let mut op = rng.u8();
